@@ -138,8 +138,12 @@ def beam_batch_shape(beam):
 TRAIL_OUT = {"particles": 2, "energy": 0, "particle_charges": 1, "survival_probabilities": 1, "_mu": 1, "_cov": 2, "total_charge": 0}
 
 
+LAST = {}      # structured description of the last non-ok comparison: {"name": observable, "idx": batch index}
+
+
 def compare_case(spec, beam):
     """Returns (status, detail).  status in ok / skip / mismatch / nan_from_neighbour / shape / exception."""
+    LAST.clear()
     try:
         full = bshape(elem_batch_shape(spec), beam_batch_shape(beam))
     except RuntimeError:
@@ -181,11 +185,13 @@ def compare_case(spec, beam):
                 return "shape", f"{n} entry {idx}: {tuple(x.shape)} vs scalar {tuple(y.shape)}"
             fin_y = torch.isfinite(y)
             if torch.any(fin_y & ~torch.isfinite(x)):
+                LAST.update(name=n, idx=list(idx))
                 return "nan_from_neighbour", f"{n} entry {idx} is finite alone but NaN/inf in the batch"
             m = fin_y & torch.isfinite(x)
             d = (x - y).abs()[m]
             tol = (1e-10 * torch.maximum(x.abs(), y.abs()) + 1e-16)[m]
             if d.numel() and torch.any(d > tol):
+                LAST.update(name=n, idx=list(idx))
                 return "mismatch", f"{n} entry {idx}: max |batch - scalar| = {float(d.max()):.3e}"
     return "ok", ""
 
@@ -193,6 +199,12 @@ def compare_case(spec, beam):
 # ---------------------------------------------------------------- known-finding signatures
 def flat(v):
     return [float(x) for x in torch.tensor(v, dtype=torch.float64).flatten().tolist()]
+
+
+def entry_value(v, trailing, idx):
+    """value of a (possibly vectorised) keyword argument at the batch index idx"""
+    t = torch.tensor(v, dtype=torch.float64)
+    return proj(t, trailing, tuple(idx)) if idx is not None else t
 
 
 def sig_F4(spec):
@@ -255,13 +267,32 @@ def sig_F21(spec, beam):
 
 
 def classify(run, spec, beam, status, detail):
-    if sig_F4(spec) and status in ("mismatch", "nan_from_neighbour"):
+    """A failing case counts as a listed finding only if the entry that fails is one the finding is about (so that a different
+    defect in the same configuration is still reported)."""
+    idx = LAST.get("idx")
+    name = LAST.get("name")
+    elems = spec["es"] if spec["cls"] == "Segment" else [spec]
+
+    def at_entry(cls_names, key, pred, default=0.0):
+        if idx is None:
+            return True
+        for s in elems:
+            if s["cls"] in cls_names:
+                try:
+                    if pred(float(entry_value(s["kw"].get(key, default), 0, idx))):
+                        return True
+                except Exception:
+                    return True
+        return False
+
+    if sig_F4(spec) and status in ("mismatch", "nan_from_neighbour") and at_entry(("Dipole", "RBend"), "length", lambda L: L == 0.0) \
+            and name in ("particles", "_mu", "_cov", None):
         run.known("Dipole/RBend with a vectorised length mixing zero and non-zero entries: the zero-length entry is tracked differently than alone (whole-tensor branch `torch.any(self.length != 0.0)`) [F4]")
         return True
-    if sig_F5(spec, beam) and status in ("mismatch", "nan_from_neighbour"):
+    if sig_F5(spec, beam) and status in ("mismatch", "nan_from_neighbour") and name in ("particles", "_mu", "_cov", None):
         run.known("Cavity batch mixing accelerating and non-accelerating entries: the latter get NaN / wrong tau (whole-tensor branch `torch.any(delta_energy > 0)`) [F5]")
         return True
-    if sig_F1(spec) and status == "mismatch":
+    if sig_F1(spec) and status == "mismatch" and at_entry(("Cavity",), "voltage", lambda V: V == 0.0) and name in ("particles", "_mu", "_cov", None):
         run.known("Segment containing a Cavity whose voltage batch mixes zero and non-zero entries: the zero-voltage entry is tracked with Cavity.track's second-order tau term in the batch but by its linear map alone (same root as F1: Cavity(voltage=0).track != its transfer_map) [F1]")
         return True
     if sig_F23(spec, beam) and status == "exception":
